@@ -79,6 +79,9 @@ func (tr *Translator) resolveType(txt string) types.Type {
 
 func (tr *Translator) sortOfText(txt string) (string, types.Type) {
 	if strings.HasPrefix(txt, "smt:") { // raw SMT sort
+		if strings.Contains(txt, "JV") {
+			tr.jsonDecls()
+		}
 		return txt[4:], nil
 	}
 	t := tr.resolveType(txt)
@@ -633,6 +636,83 @@ func (e *Env) evalCall(x *Call) *Val {
 		// a newly allocated object: its own base, allocated between the pre-state and now
 		p := arg(0).E()
 		return boolVal(fmt.Sprintf("(and (> %s 0) (= (obase %s) %s) (= (ftag %s) 0) (>= %s %s) (< %s %s))", p, p, p, p, p, e.old.get(u, "ALLOC"), p, e.st.get(u, "ALLOC")))
+	case "nfKind", "nfKindAll":
+		// nfKind(j, "PropsStruct", "metaSchemaDefinition"): every member of object j that is a JSON field of the struct
+		// is in normal form: not null, decodes, re-encodes to itself and - unless the shipped meta-schema lists it as
+		// required - is not empty.  nfKindAll demands non-emptiness of required members too.
+		j := arg(0)
+		sl1, ok1 := x.Args[1].(*StrLit)
+		sl2, ok2 := x.Args[2].(*StrLit)
+		if !ok1 || !ok2 {
+			evalFail("nfKind wants literals")
+		}
+		t := tr.resolveType(sl1.V)
+		st, _ := structOf(t)
+		if st == nil {
+			evalFail("nfKind: %s is not a struct", sl1.V)
+		}
+		req := tr.metaRequired(sl2.V)
+		var cs []string
+		for _, f := range jsonFields(st) {
+			dec, dok := tr.decFn(f.typ)
+			enc := tr.encFn(f.typ)
+			k := smtString(f.name)
+			v := "(oVal " + j.E() + " " + k + ")"
+			dv := mkVal("("+dec+" "+v+")", tr.u.sortOf(f.typ), f.typ)
+			conds := []string{not(eq(v, "jNull")), "(" + dok + " " + v + ")", eq("("+enc+" "+dv.E()+")", v)}
+			if !req[f.name] || x.Fn == "nfKindAll" {
+				conds = append(conds, not((&fctx{tr: tr}).tr.emptyOfState(e.st, dv, f.typ)))
+			}
+			cs = append(cs, implies("(> (oCnt "+j.E()+" "+k+") 0)", and(conds...)))
+		}
+		return boolVal(and(cs...))
+	case "requiredPresent":
+		// requiredPresent(j, "metaSchemaDefinition"): the members the meta-schema requires are present
+		j := arg(0)
+		sl, ok := x.Args[1].(*StrLit)
+		if !ok {
+			evalFail("requiredPresent wants a literal")
+		}
+		var cs []string
+		for name := range tr.metaRequired(sl.V) {
+			cs = append(cs, "(> (oCnt "+j.E()+" "+smtString(name)+") 0)")
+		}
+		sort.Strings(cs)
+		return boolVal(and(cs...))
+	case "knownKey":
+		sl, ok := x.Args[0].(*StrLit)
+		if !ok {
+			evalFail("knownKey wants a type literal")
+		}
+		t := tr.resolveType(sl.V)
+		st, _ := structOf(t)
+		if st == nil {
+			evalFail("knownKey: %s is not a struct", sl.V)
+		}
+		k := arg(1)
+		var ds []string
+		for _, f := range jsonFields(st) {
+			ds = append(ds, eq(k.E(), smtString(f.name)))
+		}
+		return boolVal(or(ds...))
+	case "encOf":
+		// encOf(x): the JSON value encoding/json produces for x (by the static type of x)
+		v := arg(0)
+		if v.T == nil {
+			evalFail("encOf of untyped value")
+		}
+		return mkVal("("+tr.encFn(v.T)+" "+v.E()+")", "JV", nil)
+	case "decOf", "decOKOf":
+		sl, ok := x.Args[0].(*StrLit)
+		if !ok {
+			evalFail("%s wants a type literal first", x.Fn)
+		}
+		t := tr.resolveType(sl.V)
+		dec, dok := tr.decFn(t)
+		if x.Fn == "decOf" {
+			return mkVal("("+dec+" "+arg(1).E()+")", tr.u.sortOf(t), t)
+		}
+		return boolVal("(" + dok + " " + arg(1).E() + ")")
 	case "upd":
 		// upd(arr, k, v): SMT array store on ghost maps
 		a := arg(0)
